@@ -29,7 +29,7 @@ def case_fn(case):
 
 
 def families(tier, seed):
-    fam = gen.c01_structured() + [x for x in gen.c04_extra() if x[0].startswith(("V10", "V5", "V6"))] + gen.c01_random(seed, 24 if tier == "quick" else 1500)
+    fam = gen.c01_structured() + [x for x in gen.c04_extra() if x[0].startswith(("V10", "V11", "V12", "V5", "V6"))] + gen.c01_random(seed, 24 if tier == "quick" else 1500)
     cases = []
     for tag, feats, model in fam:
         for vec in (False, True):
